@@ -1002,7 +1002,7 @@ func FilterHandler(value string) bool {
 	if BrightnessCont.MatchString(value) {
 		return true
 	}
-	if loc := DropShadow.FindStringIndex(value); loc != nil && strings.HasSuffix(value, ")") {
+	if loc := DropShadow.FindStringIndex(value); loc != nil && loc[1] < len(value) && strings.HasSuffix(value, ")") {
 		// the offsets and radii may be followed by a colour
 		colorValue := strings.TrimSpace(value[loc[1] : len(value)-1])
 		if colorValue == "" || ColorHandler(colorValue) {
